@@ -13,13 +13,15 @@
     `String::from_utf8_lossy`), `execute_unified_redis_command` (arguments must be valid UTF-8; the
     refusal arms; everything else goes to the command executor with the script's database index).
   * `storage/commands/lua.rs: handle_eval_with_db` (the database index of the connection is passed)
-    and `network/server.rs: handle_evalsha_command` (looks the source up in the cache and calls
-    `handle_eval`, i.e. database 0).
+    and `network/server.rs: handle_evalsha_command` (looks the source up in the cache and runs it like
+    EVAL; until commit b74cb7f it called `handle_eval`, i.e. database 0: switch `evalshaDb0`).
   * Lua 5.1 numbers are IEEE doubles: an integer reply passes through a double (`f64Int`).
 
   One set of functions with quirk switches (`Quirks`): `Quirks.spec` (all `false`) is the standard
-  Redis conversion table and script semantics the property prescribes; `Quirks.code` is the current
-  tree.  `Code.f = f Quirks.code`, `Spec.f = f Quirks.spec`.
+  Redis conversion table and script semantics the property prescribes; `Quirks.code` has every
+  deviation on (the tree as first analysed).  Which switches the tree has NOW is re-read from the
+  source on every run (`Gen.luaQuirksSeen`, translator/lua_tables.py) and sent to the driver by
+  lib/c12.py, so a repaired deviation needs no edit here.  `Code.f = f Quirks.code`, `Spec.f = f Quirks.spec`.
 
   A `redis.call` of a command executes `KS.step` on the script's database: the SAME function that
   models the direct command.  That is the property ("the same effect and the same reply as sending
@@ -164,8 +166,8 @@ structure Quirks where
 
 def Quirks.spec : Quirks := {}
 
-/-- The current tree (each switch confirmed on the real server by lib/c12.py; the translator
-    re-reads the conversion arms on every run, `translator/lua_tables.py`). -/
+/-- Every deviation on: the tree as first analysed for C12 (each switch was confirmed on the real
+    server).  The switches of the tree as it is now are `Gen.luaQuirksSeen` (re-read on every run). -/
 def Quirks.code : Quirks :=
   { nilBulkIsNil := true, statusIsString := true, lossyStrings := true, pcallErrIsNil := true,
     falseIsZero := true, fracIsBulk := true, emptyTableIsNil := true, okErrTablesIgnored := true,
